@@ -47,6 +47,7 @@ MIN_REACH = {
     "sampler_crops_whose_table_does_not_exist_yet": {"quick": 30, "thorough": 100},
     "harvester_crops_whose_results_are_all_nan": {"quick": 8, "thorough": 30},
     "harvester_crops_whose_harvester_is_chunked": {"quick": 25, "thorough": 80},
+    "attempts_under_xarrays_new_combine_defaults": {"quick": 100, "thorough": 350},
 }
 TIME_BUDGET = {"quick": 400, "thorough": 3400}
 
@@ -244,6 +245,17 @@ class SaveFailpoint(object):
 
 
 def run_case(ctx, case):
+    """A fifth of the attempts run in a session whose caller opted into xarray's announced new defaults for combining
+    datasets (xr.set_options(use_new_combine_kwarg_defaults=True)): what a reap keeps or deletes does not depend on it."""
+    import xarray as xr
+    if case.get("idx", 0) % 5 == 3 and "use_new_combine_kwarg_defaults" in xr.core.options.OPTIONS:
+        ctx.count("attempts_under_xarrays_new_combine_defaults")
+        with xr.set_options(use_new_combine_kwarg_defaults=True):
+            return _run_case(ctx, case)
+    return _run_case(ctx, case)
+
+
+def _run_case(ctx, case):
     import xyzpy
     if case.get("stale"):
         return run_stale(ctx, case)
